@@ -517,13 +517,24 @@ func sample(s []json.RawMessage, n int) []json.RawMessage {
 // outputs evaluates every selection function once on a, re-pinning the
 // process-global source before each (the selection code itself re-seeds the
 // global source, so one pin at the start would not reach later calls).
-type outT struct{ name, val string }
+type outT struct {
+	name, val string
+	// touched: the process-global math/rand source did not continue the pinned
+	// sequence after the call, i.e. the selection code seeded it or drew from it
+	touched bool
+}
+
+// globalUntouched draws once from the process-global source and compares with
+// the first value of the sequence the last pin started.
+func globalUntouched(pinned int64) bool {
+	return rand.Int63() == rand.New(rand.NewSource(pinned)).Int63()
+}
 
 func outputs(c *core.Ctx, k *chain, a *state.Arbiters, aops []Item, pin int64) []outT {
 	var out []outT
 	n := int64(0)
 	repin := func() { n++; rand.Seed(pin ^ n) }
-	add := func(nm, v string) { out = append(out, outT{nm, v}) }
+	add := func(nm, v string) { out = append(out, outT{nm, v, !globalUntouched(pin ^ n)}) }
 	repin()
 	add("getSortedProducers", keysDigest(a.VerifRandSortedProducers()))
 	repin()
@@ -647,7 +658,7 @@ func pinned(c *core.Ctx, k *chain, aops []Item) {
 				h := k.baseH + uint32(op.DH)
 				rand.Seed(pin ^ int64(1000+i))
 				ps, err := a.VerifRandSortedProducersWithRandom(h, k.unclaimed)
-				out = append(out, outT{fmt.Sprintf("getSortedProducersWithRandom#%d", i), fmt.Sprintf("%s %v", keysDigest(ps), err)})
+				out = append(out, outT{fmt.Sprintf("getSortedProducersWithRandom#%d", i), fmt.Sprintf("%s %v", keysDigest(ps), err), !globalUntouched(pin ^ int64(1000+i))})
 			}
 		})
 		return out
@@ -660,6 +671,11 @@ func pinned(c *core.Ctx, k *chain, aops []Item) {
 	c.AddSimSeconds(float64(ca + cb))
 	for i := range o1 {
 		c.Check()
+		if o1[i].touched || o2[i].touched {
+			c.Logf("pinned %s touches the global source", o1[i].name)
+			c.Violate("C24", "global-source-untouched", "C24/"+fnOf(o1[i].name)+"/seeds-or-draws-from-process-global-math-rand",
+				"%s left the process-global math/rand source in another state than it found it (pinned to a known seed just before the call, the next value drawn afterwards is not the first of that sequence): the selection seeds or draws from a source every goroutine of the process shares, so a draw by any of them between its Seed and its draws changes the result", o1[i].name)
+		}
 		same := o1[i].val == o2[i].val
 		if same {
 			c.Logf("pinned %s %s", o1[i].name, o1[i].val)
